@@ -18,6 +18,7 @@ type Clause struct {
 	Tags  []string
 	Expr  *SX
 	Loop  int    // for invariants: loop ordinal (1-based)
+	Theory string
 	Src   string // file:line
 	Raw   string
 }
@@ -40,12 +41,15 @@ type Contract struct {
 	Src       string
 	Notes     []string
 	NoBody    bool
+	SafeUnder *SX // automatic safety obligations are claimed only under this condition
+	Uses      []string
 }
 
 // ContractSet holds all contracts of one package plus raw SMT prelude text.
 type ContractSet struct {
 	ByName  map[string]*Contract
-	Prelude []string // raw SMT commands (define-fun, declare-fun, assert ...) in order
+	Prelude []PreludeItem // raw SMT commands (define-fun, declare-fun, assert ...) in order
+	curTheory string
 	Ghost   []GhostDecl
 	Lemmas  []*Clause
 	Assumes []string // textual list of assumptions declared in the file
@@ -61,6 +65,14 @@ type Induct struct {
 	Var   string
 	Body  *SX
 	Src   string
+	Theory string
+}
+
+// PreludeItem is one raw SMT command; axioms (assert) inside a `theory NAME` block are only
+// included in the queries of functions that declare `uses NAME`.
+type PreludeItem struct {
+	Text   string
+	Theory string
 }
 
 type GhostDecl struct {
@@ -184,7 +196,17 @@ func (cs *ContractSet) handle(cur **Contract, txt, src string) error {
 		if !balanced(rest) {
 			return fmt.Errorf("%s: unbalanced smt block", src)
 		}
-		cs.Prelude = append(cs.Prelude, rest)
+		th := ""
+		if strings.HasPrefix(strings.TrimSpace(rest), "(assert") {
+			th = cs.curTheory
+		}
+		cs.Prelude = append(cs.Prelude, PreludeItem{Text: rest, Theory: th})
+		return nil
+	case "theory":
+		cs.curTheory = strings.TrimSpace(rest)
+		return nil
+	case "endtheory":
+		cs.curTheory = ""
 		return nil
 	case "ghost":
 		// ghost COMP SORT...
@@ -199,6 +221,7 @@ func (cs *ContractSet) handle(cur **Contract, txt, src string) error {
 		if err != nil {
 			return err
 		}
+		cl.Theory = cs.curTheory
 		cs.Lemmas = append(cs.Lemmas, cl)
 		return nil
 	case "induct":
@@ -218,6 +241,7 @@ func (cs *ContractSet) handle(cur **Contract, txt, src string) error {
 			return fmt.Errorf("%s: induct %s: %v", src, label, err)
 		}
 		ind.Body = e
+		ind.Theory = cs.curTheory
 		cs.Inducts = append(cs.Inducts, ind)
 		return nil
 	case "guardrule", "constfield", "elemptr":
@@ -236,6 +260,14 @@ func (cs *ContractSet) handle(cur **Contract, txt, src string) error {
 		if rest != "" {
 			c.Notes = append(c.Notes, rest)
 		}
+	case "uses":
+		c.Uses = append(c.Uses, strings.Fields(rest)...)
+	case "safe-under":
+		e, err := parseOneSX(rest)
+		if err != nil {
+			return fmt.Errorf("%s: safe-under: %v", src, err)
+		}
+		c.SafeUnder = e
 	case "pure":
 		c.Pure = true
 		c.ModSet = true
